@@ -17,7 +17,10 @@ oracle   : on the implementation's output: every node / diagnostic / outline ran
            contains its selection range.
 """
 from .. import core, ranges, sexp
-from ..gen import parsecases
+import hashlib
+import re
+
+from ..gen import parsecases, prog, toks
 
 RULE = ("cases = the shared parser battery incl. texts over the 17-symbol alphabet and random Unicode run through the real lexer; "
         "for every case every range of the tree, the diagnostics and the outline is checked; "
@@ -96,6 +99,7 @@ def run(ctx):
                 cross_bad += 1
     ctx.oblige("tie:python-range-checker==lean-range-checker", cross_bad == 0, "%d cases differ" % cross_bad)
     cross_file(ctx, q)
+    response_ranges(ctx, q)
     ctx.samples = [{"case": lines[i][:300], "ranges": rm[i]} for i in (len(lines) - 1, len(lines) // 2, 7)]
     return ctx.finish(rule=RULE)
 
@@ -240,6 +244,64 @@ def cross_file(ctx, q):
     ctx.count("hierarchy answers checked", ni)
 
 
+def response_text(rng):
+    """a text with syntax errors whose diagnostics may span lines: a generated (and usually mutated) program, its token values
+    joined by blanks with a line break after every 1–4 tokens"""
+    g = prog.Gen(rng)
+    t = g.program() if hasattr(g, "program") else g.method(2)
+    if rng.chance(3, 4):
+        t = prog.mutate(rng, t, list(toks.LEX.keys()))
+    out, n = [], 0
+    per = 1 + rng.below(4)
+    for k, v in t:
+        out.append(v if v else toks.LEX.get(k, ""))
+        n += 1
+        out.append("\n" + " " * rng.below(9) if n % per == 0 else " ")
+    return "".join(out)
+
+
+def bad_response_ranges(text, a):
+    """ill-formed ranges of a `diagranges` answer: start after end, or beyond the last line of the text"""
+    m = re.match(r"^R=(\S*) N=(\d+)$", a)
+    if not m:
+        return None
+    nl = text.count("\n") + 1
+    bad = []
+    for it in m.group(1).split(","):
+        if not it:
+            continue
+        sev, rg = it.split("|")
+        s_, e_ = rg.split("-")
+        (sl, sc), (el, ec) = map(int, s_.split(":")), map(int, e_.split(":"))
+        if (sl, sc) > (el, ec) or el > nl:
+            bad.append(it)
+    return bad
+
+
+def response_ranges(ctx, q):
+    """the ranges of the diagnostics RESPONSE (manager/mod.rs turns lexer, parser and analyzer diagnostics into LSP items): the real
+    request on texts with syntax errors laid out over many short lines — every range runs forwards and ends inside the text"""
+    texts = [response_text(ctx.rng) for _ in range(600 if q else 12000)]
+    texts += ["class aRootClass\n\n        const cBroken =\nx : int4\n", "class aC\n\nproc P(\n  a : int4,\n\nendproc\n",
+              "class aC\n\nproc P\n        x = (1 +\n2\nendproc\n"]
+    lines = ["diagranges " + core.esc(t) for t in texts]
+    out = ctx.run_harness("diagranges", lines, timeout=900)
+    n_items = 0
+    for t, l, a in zip(texts, lines, out):
+        bad = bad_response_ranges(t, a)
+        ctx.count("diagnostics responses checked")
+        if bad is None:
+            if a == "panic" or a.startswith("<no-output"):
+                ctx.oracle_fail("C08:diagnostics-request-crashed", "the diagnostics request crashed on this text", {"mode": "diagranges", "case": l, "implementation": a})
+            continue
+        n_items += a.count("|")
+        ctx.distinct.add(hashlib.md5(a.encode()).digest()) if a.count("|") else None
+        if bad:
+            ctx.oracle_fail("C08:diagnostic-response-range", "a diagnostic of the response has an ill-formed range (runs backwards / ends beyond the text): %s" % bad[:3],
+                            {"mode": "diagranges", "case": l, "implementation": a})
+    ctx.count("diagnostic items of responses checked", n_items)
+
+
 def replay(ctx):
     import json
     d = json.load(open(ctx.replay))
@@ -274,6 +336,18 @@ def replay(ctx):
             print("VIOLATION property=C08 replay=%s" % ctx.replay)
             return 1
         print("every link lies inside the file it names")
+        return 0
+    if isinstance(case, dict) and case.get("mode") == "diagranges":
+        a = ctx.run_harness("diagranges", [line])[0]
+        text = core.unesc(line.split(" ", 1)[1]) if " " in line else ""
+        print(text)
+        print("implementation:", a)
+        bad = bad_response_ranges(text, a)
+        if bad is None or bad:
+            print("ill-formed ranges in the diagnostics response:", bad)
+            print("VIOLATION property=C08 replay=%s" % ctx.replay)
+            return 1
+        print("every range of the diagnostics response runs forwards and ends inside the text")
         return 0
     if isinstance(case, dict) and case.get("mode") == "tree":
         a = ctx.run_harness("tree", [line])[0]
